@@ -192,7 +192,7 @@ pub open spec fn accept_justified(c: Constraint, ctx: Context) -> bool {
     ensures
         // C06/C20: a Type-vs-Type constraint without temporaries is accepted only if the supertype test holds
         // (or one side is Any); a failed or erroneous test never yields Ok
-        r is Ok ==> accept_justified(*constraint, *ctx),                          //# accepted_only_if_supertype_or_any [C06,C20]
+        r is Ok ==> accept_justified(*constraint, *ctx),                          //# accepted_only_if_supertype_or_any [C06,C20,C05]
         // C19 "every rejection carries at least one diagnostic"
         r is Err ==> r->Err_0@.len() >= 1,                                       //# rejection_carries_a_diagnostic [C19,C06]
 //@@ END
